@@ -440,6 +440,27 @@ func c03Special(c *mc.Check) {
 	f.Done()
 }
 
+func c03Shortest(c *mc.Check, n, kmax int) {
+	f := c.Family("printed-floats", fmt.Sprintf("every value of the deterministic lattice (±%d ulp around powers of ten 1e-7…1e23, k/997·10^j for k≤%d, neighbourhoods of 2^50…2^64) printed as its shortest round-tripping decimal in plain ('f'), exponent ('e') and %%v notation and with 17 significant digits: read back bit for bit as strconv does; non-trivial = accepted texts", n, kmax), c03Replay)
+	if c.Replaying() {
+		return
+	}
+	var texts []string
+	for _, v := range valueLattice(n, kmax) {
+		if math.IsNaN(v) || math.IsInf(v, 0) {
+			continue
+		}
+		texts = append(texts, strconv.FormatFloat(v, 'e', -1, 64), strconv.FormatFloat(v, 'g', 17, 64), fmt.Sprint(v))
+		if a := math.Abs(v); a == 0 || (a > 1e-30 && a < 1e40) {
+			texts = append(texts, strconv.FormatFloat(v, 'f', -1, 64))
+		}
+	}
+	f.Bounds["texts"] = len(texts)
+	c03RunList(c, f, texts, []string{"value"})
+	f.Sample(c03Case{"value", "203.18687664732286"})
+	f.Done()
+}
+
 func TestVerifC03(t *testing.T) {
 	c := mc.NewCheck("C03")
 	c.Assume("strconv.ParseFloat / strconv.Atoi define correct rounding and the accepted syntax")
@@ -449,6 +470,7 @@ func TestVerifC03(t *testing.T) {
 	c03Powers(c)
 	c03Integers(c)
 	c03Special(c)
+	c03Shortest(c, mc.Pick(c, 64, 1024), mc.Pick(c, 20000, 200000))
 	if code := c.Finish(); code != 0 {
 		os.Exit(code)
 	}
